@@ -12,6 +12,7 @@ import (
 	"github.com/smart-core-os/sc-api/go/traits"
 	"github.com/smart-core-os/sc-api/go/types"
 
+	"github.com/smart-core-os/sc-golang/pkg/masks"
 	"github.com/smart-core-os/sc-golang/pkg/resource"
 )
 
@@ -109,7 +110,7 @@ func (s *ModelServer) ListModes(_ context.Context, request *traits.ListModesRequ
 	}
 	pageSize := capPageSize(int(request.GetPageSize()))
 
-	sortedModes := s.model.Modes(resource.WithReadMask(request.ReadMask))
+	sortedModes := s.model.Modes()
 	nextIndex := 0
 	if lastKey != "" {
 		nextIndex = sort.Search(len(sortedModes), func(i int) bool {
@@ -136,6 +137,12 @@ func (s *ModelServer) ListModes(_ context.Context, request *traits.ListModesRequ
 		return nil, err
 	}
 	result.Modes = sortedModes[nextIndex:upperBound]
+
+	// apply the read mask to the page only: paging (and the next page token) needs the unmasked keys
+	mask := masks.NewResponseFilter(masks.WithFieldMask(request.ReadMask))
+	for i, item := range result.Modes {
+		result.Modes[i] = mask.FilterClone(item).(*traits.ElectricMode)
+	}
 	return result, nil
 }
 
